@@ -101,6 +101,27 @@ def main(payload):
             runs = [module_name(c["input"], order) for order in c["orders"]]
             runs.append(module_name(c["input"], c["orders"][0]))       # repeated call, same process
             results.append(dict(runs=runs))
+        elif kind == "fmt":
+            # the real name formatting of Verifier.__init__ for chosen CRC values (crc32 replaced by constants)
+            names = []
+            for c1, c2 in c["pairs"]:
+                seq = [c1, c2]
+
+                class Fixed:
+                    @staticmethod
+                    def crc32(data, *a):
+                        return seq.pop(0)
+                old = verifier.binascii
+                verifier.binascii = Fixed
+                try:
+                    ffi = cffi.FFI()
+                    v = verifier.Verifier(ffi, "", tmpdir=os.environ["VERIF_WORK"])
+                    names.append(v.get_module_name())
+                except Exception as e:
+                    names.append("!" + exc_class(e))
+                finally:
+                    verifier.binascii = old
+            results.append(dict(names=names))
         elif kind == "pair":
             results.append(dict(a=module_name(c["a"], range(len(c["a"]["kwds"]))),
                                 b=module_name(c["b"], range(len(c["b"]["kwds"])))))
